@@ -162,6 +162,20 @@ func init() {
 	})
 }
 
+func init() {
+	reg(&PropSpec{
+		ID: "C05",
+		Batches: []Batch{
+			s4b("rpc", "faults=strip,mounts=bare+mux+prefix", 15000, 800000),
+			s4b("rpc", "filters=1,mounts=bare+mux+prefix", 12000, 600000),
+			s4b("rpc", "route=damage,filters=1,mounts=bare+mux+prefix,strings=benign", 15000, 800000),
+			s4b("rpc", "late=1,filters=1", 8000, 400000),
+		},
+		Rule:   "as C02, with one routing stress per batch: (1) an intermediary strips X-RestLi-Method from 60% of the requests (ground truth = the method the generated client named); (2) 0-3 recording filters, one of which may refuse; (3) every second request has its path damaged (unregistered resource, unknown sub-resource, dropped key, added key) and must be answered 404/400 without resource code or filters running; (4) a task registers a further resource on the Server after Handler() was taken while callers use the handler. Exactly-once dispatch to the named method is checked on every call. Distinct by (resource, method, mounting) of the first call.",
+		Assume: append([]string{"the full verb x header x path decision table for foreign requests (other verbs, unknown header values, trailing slashes) is a pure table and is not enumerated here"}, s4Assume...),
+	})
+}
+
 func joinNonEmpty(s ...string) string {
 	var o []string
 	for _, x := range s {
